@@ -10,7 +10,33 @@ from hypothesis import strategies as st
 from vlib.ref import c14_model as model
 
 BUFFS = [1, 2, 3, 5, 8, 16, 64, 8192]
-_buff = st.sampled_from([1, 2, 2, 3, 3, 5, 5, 8, 8, 8, 16, 16, 64, 64, 8192])
+# "every memory-buffer size from 1 upwards": mostly the small sizes that the generated texts are fitted to, sometimes
+# any size up to 70, a size around a power of two, or the default; see also `buff_near_text`
+_buff = st.one_of(st.sampled_from([1, 2, 2, 3, 3, 5, 5, 8, 8, 8, 16, 16, 64, 64, 8192]),
+                  st.sampled_from([1, 2, 2, 3, 3, 5, 5, 8, 8, 8, 16, 16, 64, 64, 8192]),
+                  st.sampled_from([1, 2, 2, 3, 3, 5, 5, 8, 8, 8, 16, 16, 64, 64, 8192]),
+                  st.integers(1, 70),
+                  st.sampled_from([4, 7, 9, 15, 17, 31, 32, 33, 63, 65, 127, 128, 129, 255, 256, 1000, 4096, 8191,
+                                   8193]))
+
+
+def buff_label(buff):
+    for name, hi in (('1', 1), ('2', 2), ('3', 3), ('4-7', 7), ('8-15', 15), ('16-63', 63), ('64-255', 255),
+                     ('256-8191', 8191), ('8192', 8192)):
+        if buff <= hi:
+            return 'B:' + name
+    return 'B:>8192'
+
+
+def buff_near_text(draw, buff, texts):
+    """With some probability: a buffer size at the length (in characters or in bytes) of one of the texts, or one
+    off - the sizes at which the representation of a cached text changes."""
+    texts = [t for t in texts if t]
+    if not texts or draw(_pct) >= 25:
+        return buff
+    t = draw(st.sampled_from(texts))
+    n = len(t) if draw(_bool) else len(t.encode('utf-8'))
+    return max(1, n + draw(st.sampled_from([-1, 0, 0, 1])))
 _pct = st.integers(0, 99)
 _bool = st.booleans()
 
@@ -158,7 +184,13 @@ def draw_tr(draw, n_lines, allow_programs=True, depth=0):
     if kind == 'grep':
         return ['grep', draw(_ch)]
     if kind == 'replace':
-        return ['replace', draw(st.sampled_from(sorted(model.REPLACEMENTS))), draw(_bool)]
+        tr = ['replace', draw(st.sampled_from(sorted(model.REPLACEMENTS))), draw(_bool)]
+        if draw(_pct) < 35:  # -at LINE-MATCHER
+            if draw(_bool):
+                tr.append(['ln', draw(_op), draw(st.integers(0, n_lines + 1))])
+            else:
+                tr.append(['has', draw(_ch)])
+        return tr
     if kind == 'run':
         stdin = None
         if draw(_pct) < 35:
@@ -199,7 +231,7 @@ def draw_source(draw, buff, allow_programs=True, max_tr=3, allow_concat=True):
         base = ['concat', parts]
     else:
         base = _draw_leaf(draw, buff, allow_programs)
-    return chain(base, draw(st.sampled_from([k for k in [0, 1, 1, 1, 2, 2, 2, 3] if k <= max_tr])))
+    return chain(base, draw(st.sampled_from([k for k in [0, 1, 1, 1, 2, 2, 2, 3, 3, 4, 5] if k <= max_tr])))
 
 
 # ---- access sequences (layer A) ------------------------------------------------------------------------------------
@@ -219,12 +251,12 @@ def draw_ops(draw, n_nodes):
 
 
 def _enlarge(draw, node):
-    """The same tree with its first leaf text repeated up to 20 000 - 70 000 characters (never a part of a
-    concatenation: see draw_source)."""
+    """The same tree with its first leaf text repeated up to 20 000 - 140 000 characters (a concatenation stays as
+    it is)."""
     if node[0] == 'tr':
         return ['tr', node[1], _enlarge(draw, node[2])]
     if node[0] in ('str', 'lit', 'file', 'prog') and node[1]:
-        target = draw(st.integers(20000, 70000))
+        target = draw(st.sampled_from([20000, 65535, 65536, 65537, 70000, 131073]))
         node = list(node)
         node[1] = node[1] * (target // len(node[1]) + 1)
     return node
@@ -233,10 +265,178 @@ def _enlarge(draw, node):
 @st.composite
 def api_cases(draw, allow_programs=True, big=False):
     buff = draw(_buff)
-    src = draw_source(draw, buff, allow_programs)
-    if big and draw(_pct) < 2:
+    src = draw_source(draw, buff, allow_programs, max_tr=5 if big else 3)
+    if draw(st.integers(0, 999)) < (20 if big else 2):
+        # a text larger than any internal read buffer (65536) and than the buffer of a file object
         src = _enlarge(draw, src)
+    else:
+        nodes = model.nodes_preorder(src)
+        buff = buff_near_text(draw, buff, [model.ref_text(n) for n in nodes])
     ops = draw_ops(draw, len(model.nodes_preorder(src)))
+    return {'buff': buff, 'src': src, 'ops': ops}
+
+
+# ---- every order of the access methods and freeze (layer A, enumerated) ----------------------------------------------
+_T1 = 'a\x0cb\n\u00e9\u00e9a\n\u2028b'  # form feed, line separator, 2-byte characters, no final new-line
+_T2 = 'ab\n\x85a\n\u20ac\n'  # NEL, a 3-byte character
+_T3 = 'x\x1cy\nab'
+ORDER_SOURCES = [
+    ['tr', ['filter', ['true']], ['file', _T1]],  # lines-filter over a file
+    ['tr', ['run', 'cat', None], ['str', _T2]],  # transformer program
+    ['prog', _T1, 'out', False],  # program output (written by the program)
+    ['prog', _T3, 'err', False],  # stderr, exit code relevant (a file made by the program)
+    ['prog', _T1, 'err', True],
+    ['concat', [['str', 'a'], ['file', 'b\x0cc\nd'], ['prog', '\u00e9\n', 'out', False]]],
+    ['tr', ['nums', [[-1], [1]]], ['prog', _T1, 'out', False]],  # ranges that need the number of lines
+    ['tr', ['strip', None], ['tr', ['grep', 'a'], ['file', _T1]]],
+    ['tr', ['run', 'tr', 'P\u20ac'], ['tr', ['upper'], ['lit', 'ab\nab\n', 'here']]],  # stdin + model
+    ['tr', ['replace', 'bFF', False], ['tr', ['filter', ['ln', '>=', 2]], ['str', _T2]]],
+    ['tr', ['nums', [[2, -1]]], ['tr', ['run', 'cat', None], ['file', _T1]]],
+    ['tr', ['replace', 'NLdel', False, ['ln', '==', 1]], ['tr', ['filter', ['has', 'a']], ['prog', _T2, 'out', True]]],
+]
+
+
+def order_cases(tier):
+    """Every order of as_str / as_lines / as_file / write_to / freeze (thorough: and a partial as_lines) on the
+    root of each ORDER_SOURCES tree, with buffer sizes around the length of the text in characters and in bytes."""
+    import itertools
+    ops = ['str', 'lines', 'file', 'write', 'freeze'] + (['lines_k'] if tier == 'thorough' else [])
+    for src in ORDER_SOURCES:
+        t = model.ref_text(src)
+        n, nb = len(t), len(t.encode('utf-8'))
+        sizes = {n - 1, n, n + 1, nb}
+        if tier == 'thorough':
+            sizes |= {nb - 1, nb + 1, 1, 2, 8192}
+        for buff in sorted(x for x in sizes if x >= 1):
+            for perm in itertools.permutations(ops):
+                yield {'buff': buff, 'src': src, 'ops': [[0, op, 1 if op == 'lines_k' else None] for op in perm]}
+
+
+def small_text_cases(tier):
+    """Every text of <= 3 (thorough: <= 4) characters over a small alphabet (letter, new-line, form feed, a 2-byte
+    character; thorough: + line separator) x every buffer size 1..4 (1..6) x one source per caching kind, under one
+    fixed access sequence that uses every access method before and after freeze."""
+    import itertools
+    alphabet = ['a', '\n', '\x0c', '\u00e9'] + (['\u2028'] if tier == 'thorough' else [])
+    max_len = 4 if tier == 'thorough' else 3
+    ops = [[0, 'str', None], [0, 'lines', None], [0, 'file', None], [0, 'write', None], [0, 'freeze', None],
+           [0, 'lines', None], [0, 'str', None], [0, 'file', None], [0, 'write', None], [0, 'head', 2],
+           [0, 'lines_k', 1]]
+    for n in range(max_len + 1):
+        for chars in itertools.product(alphabet, repeat=n):
+            t = ''.join(chars)
+            srcs = [['tr', ['filter', ['true']], ['file', t]], ['tr', ['run', 'cat', None], ['str', t]],
+                    ['concat', [['str', 'a'], ['file', t]]], ['concat', [['file', t], ['str', 'a\n'], ['str', t]]],
+                    ['tr', ['nums', [[-1], [None, -2]]], ['str', t]]]
+            if tier == 'thorough':
+                srcs += [['prog', t, 'out', False], ['prog', t, 'err', False]]
+            for buff in range(1, 7 if tier == 'thorough' else 5):
+                for src in srcs:
+                    yield {'buff': buff, 'src': src, 'ops': ops}
+
+
+# ---- bytes -> layer A case (for the coverage-guided campaign) -------------------------------------------------------
+_F_BUFFS = [1, 2, 3, 4, 5, 7, 8, 9, 15, 16, 17, 32, 64, 8192]
+_F_CHARS = ['a', 'b', 'A', ' ', 'c', 'a', 'b', '\x0c', '\x85', '\u2028', '\x1c', '\u00e9', '\u20ac', '\U0001F600', '\r', 'B']
+_F_OPS = ['str', 'str', 'str', 'lines', 'lines', 'lines', 'file', 'file', 'write', 'write', 'freeze', 'freeze', 'freeze',
+          'lines_k', 'head', 'ext']
+_F_STDIN = [None, None, None, 'P', 'pre\n', '\u00e9\n']
+
+
+def decode_api_case(data: bytes):
+    """bytes -> {'buff', 'src', 'ops'}: a byte-driven recursive builder (every byte selects a production / token of
+    the fixed vocabulary of this module; programs are `cat` / `tr a X` only)."""
+    if len(data) < 6:
+        return None
+    it = iter(data)
+
+    def nxt():
+        return next(it, 0)
+
+    buff = _F_BUFFS[nxt() % len(_F_BUFFS)]
+
+    def text():
+        n = nxt() % 5
+        lines = [''.join(_F_CHARS[nxt() % len(_F_CHARS)] for _ in range(nxt() % 5)) for _ in range(n)]
+        t = '\n'.join(lines)
+        if n and nxt() % 4:
+            t += '\n'
+        return t
+
+    def leaf():
+        k = nxt() % 16
+        t = text()
+        if k < 6:
+            return ['str', t]
+        if k < 8 and '\r' not in t:
+            return ['lit', t, 'here' if (k == 7 and t.endswith('\n')) else 'q']
+        if k < 13:
+            return ['file', t]
+        return ['prog', t, 'out' if k < 15 else 'err', bool(nxt() & 1)]
+
+    def bound(default):
+        return ((nxt() % 9) - 4) or default
+
+    def rng():
+        f = nxt() % 4
+        a, b = bound(1), bound(-1)
+        return [[a], [None, a], [a, None], [a, b]][f]
+
+    def lm():
+        k = nxt() % 3
+        if k == 0:
+            return ['true']
+        if k == 1:
+            return ['ln', ['==', '!=', '<', '<=', '>', '>='][nxt() % 6], nxt() % 6]
+        return ['has', 'abcA'[nxt() % 4]]
+
+    def tr(depth):
+        k = nxt() % 24
+        if k < 2:
+            return ['identity']
+        if k < 3:
+            return ['upper']
+        if k < 4:
+            return ['lower']
+        if k < 6:
+            return ['strip', [None, 'space', 'nl'][nxt() % 3]]
+        if k < 10:
+            return ['filter', lm()]
+        if k < 15:
+            return ['nums', [rng() for _ in range(1 + nxt() % 3)]]
+        if k < 16:
+            return ['grep', 'abcA'[nxt() % 4]]
+        if k < 19:
+            t = ['replace', sorted(model.REPLACEMENTS)[nxt() % len(model.REPLACEMENTS)], bool(nxt() & 1)]
+            if nxt() % 3 == 0:
+                t.append(lm() if nxt() & 1 else ['ln', '>=', 2])
+                if t[3] == ['true']:
+                    t.pop()
+            return t
+        if k < 21:
+            return ['run', 'cat' if nxt() & 1 else 'tr', _F_STDIN[nxt() % len(_F_STDIN)]]
+        if depth > 0:
+            return ['seq'] + [tr(depth - 1) for _ in range(2 + nxt() % 2)]
+        return ['filter', ['true']]
+
+    def source(depth):
+        k = nxt() % 12
+        if depth > 0 and k == 0:
+            base = ['concat', [source(0) for _ in range(2 + nxt() % 2)]]
+        else:
+            base = leaf()
+        for _ in range([0, 1, 1, 1, 2, 2, 3, 0][nxt() % 8] if depth > 0 else nxt() % 2):
+            base = ['tr', tr(1), base]
+        return base
+
+    src = source(1)
+    n_nodes = len(model.nodes_preorder(src))
+    ops = []
+    for _ in range(2 + nxt() % 6):
+        op = _F_OPS[nxt() % len(_F_OPS)]
+        target = 0 if (n_nodes == 1 or nxt() % 4) else nxt() % n_nodes
+        arg = nxt() % 4 if op == 'lines_k' else 1 + nxt() % 6 if op == 'head' else None
+        ops.append([target, op, arg])
     return {'buff': buff, 'src': src, 'ops': ops}
 
 
@@ -257,7 +457,10 @@ def render_range(r):
     return '%s:%s' % ('' if lo is None else lo, '' if hi is None else hi)
 
 
-def render_tr(tr, top=True) -> str:
+COUNT_FILE = '{OBS}/tcnt'
+
+
+def render_tr(tr, top=True, uid='') -> str:
     """Syntax of a TEXT-TRANSFORMER in a position that takes no infix operators.  Forms that run to the end of the
     line (-line-nums ranges, a shell command) end with a line break; the caller continues on the next line."""
     tag = tr[0]
@@ -284,15 +487,22 @@ def render_tr(tr, top=True) -> str:
         return 'filter -line-nums ' + ' '.join(render_range(r) for r in tr[1]) + '\n'
     if tag == 'replace':
         rx, tmpl, _, _ = model.REPLACEMENTS[tr[1]]
-        return 'replace %s%s %s' % ('-preserve-new-lines ' if tr[2] else '', quoted(rx), quoted(tmpl))
+        at = ''
+        if len(tr) > 3 and tr[3] is not None:
+            lm = tr[3]
+            at = '-at ' + ('line-num %s %d ' % (lm[1], lm[2]) if lm[0] == 'ln' else
+                           'contents matches %s ' % quoted(lm[1]))
+        return 'replace %s%s%s %s' % (at, '-preserve-new-lines ' if tr[2] else '', quoted(rx), quoted(tmpl))
     if tag == 'run':
-        cmd = {'cat': '$ cat', 'tr': '$ tr a X'}[tr[1]]
+        cnt = COUNT_FILE + str(uid)
+        cmd = {'cat': '$ cat', 'tr': '$ tr a X',
+               'count': '$ echo x >> %s; grep -c x %s; cat' % (cnt, cnt)}[tr[1]]
         s = 'run ' + cmd + '\n'
         if tr[2] is not None:
             s += '  -stdin ' + quoted(tr[2]) + '\n'
         return s
     if tag == 'seq':
-        parts = [render_tr(t, False) for t in tr[1:]]
+        parts = [render_tr(t, False, uid) for t in tr[1:]]
         out = '( ' + parts[0]
         for p in parts[1:]:
             out += ('' if out.endswith('\n') else ' ') + '| ' + p
@@ -332,10 +542,6 @@ def render_source(node, files, cat_dir='{HOME}', rel='-rel-home') -> str:
 # =====================================================================================================================
 # Layer B (CLI)
 # =====================================================================================================================
-def _no_programs_tr(tr):
-    return tr
-
-
 def draw_cli_leaf(draw, text, kinds=('lit', 'file', 'prog')):
     """A leaf for the given text, of a kind that can be written in a case file."""
     kinds = [k for k in kinds if not (k == 'lit' and '\r' in text)]
@@ -347,10 +553,33 @@ def draw_cli_leaf(draw, text, kinds=('lit', 'file', 'prog')):
     return ['prog', text, draw(st.sampled_from(['out', 'out', 'err'])), draw(_pct) < 30]
 
 
+def _splitlines(text):
+    """The pieces str.splitlines gives (generator steering only: near-miss expectations that a line-splitting routine
+    of that kind would make true)."""
+    return tuple(text.splitlines(True))
+
+
+# transformers that give their input back (for the lines of the texts they are applied to here)
+_PRESERVING = [['identity'], ['filter', ['true']], ['run', 'cat', None], ['nums', [[1, None]]], ['nums', [[None, -1]]],
+               ['nums', [[1, 1], [2, None]]], ['nums', [[-1], [None, -2]]], ['replace', 'aX', True, ['ln', '<', 1]],
+               ['tcds'], ['filter', ['ln', '>=', 1]], ['seq', ['filter', ['true']], ['identity'], ['run', 'cat', None]]]
+
+
+def draw_expected(draw, text):
+    """A source with the value ``text``: a leaf of any kind that can be written in a case file, sometimes under a
+    transformer that preserves the text (expected texts "after transformation")."""
+    leaf = draw_cli_leaf(draw, text)
+    if draw(_pct) < 30:
+        return ['tr', draw(st.sampled_from(_PRESERVING)), leaf]
+    return leaf
+
+
 def _variants_of(draw, text):
-    """A text that differs from ``text`` in a way the modelled confusions would hide or create."""
-    cands = [text + 'x', text[:-1], text + '\n', model.universal(text), '\n'.join(text.splitlines()),
-             ''.join(model.sl_split(text)[:-1]), text.replace('\r', ''), text.swapcase()]
+    """A text that differs from ``text`` in a way that confusions about line ends / the end of the text would hide
+    or create."""
+    cands = [text + 'x', text[:-1], text + '\n', text + '\nzz', text + 'zz\n', text + '\n\n',
+             model.universal(text), '\n'.join(text.splitlines()),
+             ''.join(_splitlines(text)[:-1]), text.replace('\r', ''), text.swapcase()]
     cands = [c for c in cands if c != text]
     if not cands:
         return text + 'x'
@@ -360,25 +589,28 @@ def _variants_of(draw, text):
 def draw_matcher(draw, t_actual):
     """A matcher (JSON) steered by the text it will see; see render_matcher."""
     lines = model.nl_split(t_actual)
-    kind = _pick(draw, [('eq', 40), ('nl', 18), ('any', 14), ('every-le', 6), ('empty', 4), ('cmp', 18)])
+    kind = _pick(draw, [('eq', 40), ('nl', 18), ('any', 14), ('every-le', 6), ('empty', 4), ('cmp', 18),
+                        ('matches', 5)])
     if kind in ('eq', 'cmp'):
         other = t_actual if draw(_pct) < 55 else _variants_of(draw, t_actual)
         if kind == 'cmp':
             return ['cmp', other]
-        return ['eq', draw_cli_leaf(draw, other)]
+        return ['eq', draw_expected(draw, other)]
+    if kind == 'matches':
+        return ['matches', draw(st.sampled_from(['a', 'b', 'c', 'A', 'B', 'X', 'é']))]
     if kind in ('nl', 'every-le'):
-        cands = [len(lines), len(lines), len(lines), len(model.sl_split(t_actual)),
+        cands = [len(lines), len(lines), len(lines), len(_splitlines(t_actual)),
                  len(model.nl_split(model.universal(t_actual))), len(lines) + 1, max(0, len(lines) - 1)]
         return [kind, draw(st.sampled_from(cands))]
     if kind == 'any':
-        cands = [model._content(c) for c in lines] + [model._content(c) for c in model.sl_split(t_actual)] + \
+        cands = [model._content(c) for c in lines] + [model._content(c) for c in _splitlines(t_actual)] + \
                 [model._content(c) for c in model.nl_split(model.universal(t_actual))] + ['zz']
         return ['any', draw(st.sampled_from(cands))]
     return ['empty']
 
 
-WRAPPERS = ['plain', 'plain', 'ident', 'and', 'and', 'or']
-ACTUAL_KINDS = ['file', 'act', 'prog', 'lit', 'cnt']
+WRAPPERS = ['plain', 'plain', 'ident', 'ident', 'ident2', 'and', 'and', 'and', 'or', 'or']
+ACTUAL_KINDS = ['file', 'act', 'prog', 'lit', 'cnt', 'exists']
 
 
 @st.composite
@@ -388,7 +620,13 @@ def cli_verdict_cases(draw):
     tr = None
     if draw(_pct) < 55:
         tr = draw_tr(draw, text.count('\n') + 1)
+    if draw(_pct) < 12:
+        # a transformer program whose output differs at every run (exactly one run per assertion is demanded:
+        # `( M && M )` freezes the text)
+        count = ['run', 'count', None]
+        tr = count if tr is None else (['seq', count, tr] if draw(_bool) else ['seq', tr, count])
     t_actual = ''.join(model.apply(tr, model.nl_split(text))) if tr else text
+    buff = buff_near_text(draw, buff, [text, t_actual])
     kinds = [k for k in ACTUAL_KINDS if not (k == 'lit' and '\r' in text)]
     ins = []
     for _ in range(draw(st.integers(3, 8))):
@@ -416,7 +654,20 @@ def cli_file_cases(draw):
         stdin = draw_cli_leaf(draw, text)
         if draw(_pct) < 50:
             stdin = ['tr', draw_tr(draw, text.count('\n') + 1), stdin]
-    return {'buff': buff, 'srcs': srcs, 'stdin': stdin}
+    def one():
+        text = draw_text(draw, buff, max_lines=4)
+        src = draw_cli_leaf(draw, text)
+        if draw(_pct) < 60:
+            src = ['tr', draw_tr(draw, text.count('\n') + 1), src]
+        return src
+
+    # file oN.txt += SRC (appended to the N-th file), env VAR = SRC (consumed as a string)
+    appends = [[draw(st.integers(0, len(srcs) - 1)), one()] for _ in range(draw(st.sampled_from([0, 0, 1, 1, 2])))]
+    envs = [one() for _ in range(draw(st.sampled_from([0, 0, 1, 1, 2])))]
+    all_srcs = srcs + ([stdin] if stdin else []) + [a[1] for a in appends] + envs
+    buff = buff_near_text(draw, buff, [model.ref_text(x) for x in all_srcs])
+    return {'buff': buff, 'srcs': srcs, 'stdin': stdin, 'appends': appends, 'envs': envs,
+            'phase': draw(st.sampled_from(['setup', 'setup', 'before-assert']))}
 
 
 def render_matcher(m, files) -> str:
@@ -440,6 +691,8 @@ def render_matcher(m, files) -> str:
         name = 'f%d.txt' % (len(files) + 1)
         files[name] = m[1]
         return 'run $ cmp -s - {HOME}/%s\n' % name
+    if kind == 'matches':
+        return 'matches ' + quoted(m[1])
     raise ValueError(m)
 
 
@@ -454,14 +707,17 @@ def render_instruction(ins, tr, negate, files, idx=0) -> str:
         body = core
     elif w == 'ident':
         body = '-transformed-by identity ' + core
+    elif w == 'ident2':
+        body = '-transformed-by ( identity | identity ) ' + core
     else:
         op = '&&' if w == 'and' else '||'
         body = _join(_join(_join(_join('(', core), op), render_matcher(ins['m'], files)), ')')
     if negate:
         body = '! ' + body
     if tr is not None:
-        body = _join('-transformed-by ' + render_tr(tr), body)
+        body = _join('-transformed-by ' + render_tr(tr, uid=idx), body)
     head = {'file': 'contents -rel-home actual.txt :', 'lit': 'contents lit.txt :', 'act': 'stdout',
+            'exists': 'exists -rel-home actual.txt : contents',
             'prog': 'stdout -from $ cat {HOME}/actual.txt\n',
             'cnt': 'stdout -from ' + counter_command('{OBS}/cnt%d' % idx, '{HOME}/actual.txt')}[ins['a']]
     out = _join(head, body)
@@ -487,6 +743,127 @@ def as_rendered(node):
             return node
         trs = flat
     return ['tr', trs[0] if len(trs) == 1 else ['seq'] + trs, node]
+
+
+# =====================================================================================================================
+# Layer B, metamorphic: any matcher M (no reference semantics needed) must give one verdict for every kind of source of
+# the same text and for every wrapping that does not change the text
+# =====================================================================================================================
+META_REGEXES = ['a', 'ab', '^a', 'b$', 'a.*b', '.', '^$', '[ab]+', 'B|c', ' $', '\u00e9', '^..$', '^[^a]*$', 'c\\Z', '\\s']
+META_KINDS = [('file', 'contents -rel-home actual.txt :'), ('act', 'stdout'),
+              ('prog', 'stdout -from $ cat {HOME}/actual.txt\n  '), ('lit', 'contents lit.txt :'),
+              ('exists', 'exists -rel-home actual.txt : contents')]
+META_WRAPS = [('plain', 'MM'), ('identity', '-transformed-by identity MM'),
+              ('identity-seq', '-transformed-by ( identity | identity ) MM'), ('and', '( MM && MM )'),
+              ('or', '( MM || MM )'), ('filter-true', '-transformed-by filter constant true MM'),
+              ('filter-true-and', '-transformed-by filter constant true ( MM && MM )'),
+              ('run-cat-or', '-transformed-by run $ cat\n   ( MM || MM )'),
+              ('all-lines-and', '-transformed-by filter -line-nums :-1 1:\n   ( MM && MM )')]
+_META_SIMPLE_TR = [['identity'], ['upper'], ['lower'], ['strip', None], ['strip', 'space'], ['strip', 'nl'],
+                   ['filter', ['true']], ['filter', ['ln', '>=', 2]], ['filter', ['has', 'a']], ['grep', 'b'],
+                   ['replace', 'aX', False], ['replace', 'bNL', True], ['replace', 'NLdel', False, ['ln', '==', 1]],
+                   ['replace', 'bFF', False], ['seq', ['filter', ['true']], ['upper']]]
+
+
+def _draw_meta_lm(draw, lines, depth):
+    kind = _pick(draw, [('cm', 5), ('ce', 4), ('ln', 3), ('not', 2 if depth else 0), ('and', 2 if depth else 0),
+                        ('or', 2 if depth else 0)])
+    if kind == 'cm':
+        return ['cm', draw(_bool) and draw(_pct) < 40, draw(st.sampled_from(META_REGEXES))]
+    if kind == 'ce':
+        cands = [model._content(c) for c in lines] + ['zz', '']
+        return ['ce', draw(st.sampled_from(cands))]
+    if kind == 'ln':
+        return ['ln', draw(_op), draw(st.integers(0, len(lines) + 1))]
+    if kind == 'not':
+        return ['not', _draw_meta_lm(draw, lines, depth - 1)]
+    return [kind, _draw_meta_lm(draw, lines, depth - 1), _draw_meta_lm(draw, lines, depth - 1)]
+
+
+def draw_meta_matcher(draw, text, depth=2):
+    lines = model.nl_split(text)
+    kind = _pick(draw, [('nl', 5), ('empty', 1), ('eq', 5), ('re', 5), ('any', 5), ('every', 5),
+                        ('not', 3 if depth else 0), ('and', 3 if depth else 0), ('or', 3 if depth else 0),
+                        ('tr', 5 if depth else 0)])
+    if kind == 'nl':
+        return ['nl', draw(_op), draw(st.sampled_from([len(lines), len(lines), len(lines) + 1, max(0, len(lines) - 1),
+                                                      len(_splitlines(text))]))]
+    if kind == 'empty':
+        return ['empty']
+    if kind == 'eq':
+        other = text if draw(_pct) < 60 else _variants_of(draw, text)
+        return ['eq', other.replace('\r', ''), draw(_bool)]
+    if kind == 're':
+        return ['re', draw(_pct) < 30, draw(st.sampled_from(META_REGEXES))]
+    if kind in ('any', 'every'):
+        return [kind, _draw_meta_lm(draw, lines, 1)]
+    if kind == 'not':
+        return ['not', draw_meta_matcher(draw, text, depth - 1)]
+    if kind == 'tr':
+        tr = draw(st.sampled_from(_META_SIMPLE_TR))
+        return ['tr', tr, draw_meta_matcher(draw, ''.join(model.apply(tr, lines)), depth - 1)]
+    return [kind, draw_meta_matcher(draw, text, depth - 1), draw_meta_matcher(draw, text, depth - 1)]
+
+
+def _render_meta_lm(lm, top=False) -> str:
+    k = lm[0]
+    if k == 'cm':
+        return 'contents matches %s%s' % ('-full ' if lm[1] else '', quoted(lm[2]))
+    if k == 'ce':
+        return 'contents equals ' + quoted(lm[1])
+    if k == 'ln':
+        return 'line-num %s %d' % (lm[1], lm[2])
+    if k == 'not':
+        return '! ' + _render_meta_lm(lm[1])
+    return '( %s %s %s )' % (_render_meta_lm(lm[1]), '&&' if k == 'and' else '||', _render_meta_lm(lm[2]))
+
+
+def render_meta_matcher(m, files) -> str:
+    """Syntax of the matcher; every compound operand is put inside parentheses."""
+    k = m[0]
+
+    def operand(x):
+        s = render_meta_matcher(x, files)
+        return s if x[0] in ('nl', 'empty', 're', 'and', 'or') or (x[0] == 'eq' and not x[2]) else '( ' + s + ' )'
+
+    if k == 'nl':
+        return 'num-lines %s %d' % (m[1], m[2])
+    if k == 'empty':
+        return 'is-empty'
+    if k == 'eq':
+        if m[2]:
+            name = 'f%d.txt' % (len(files) + 1)
+            files[name] = m[1]
+            return 'equals -contents-of -rel-home ' + name
+        return 'equals ' + quoted(m[1])
+    if k == 're':
+        return 'matches %s%s' % ('-full ' if m[1] else '', quoted(m[2]))
+    if k in ('any', 'every'):
+        return '%s line : %s' % (k, _render_meta_lm(m[1]))
+    if k == 'not':
+        return '! ' + operand(m[1])
+    if k == 'tr':
+        return '-transformed-by %s %s' % (render_tr(m[1]), operand(m[2]))
+    return '( %s %s %s )' % (operand(m[1]), '&&' if k == 'and' else '||', operand(m[2]))
+
+
+def meta_tags(m):
+    out = [m[0]]
+    for x in m[1:]:
+        if isinstance(x, list) and x and isinstance(x[0], str) and m[0] in ('not', 'and', 'or', 'tr'):
+            if m[0] == 'tr' and x is m[1]:
+                continue
+            out += meta_tags(x)
+    return out
+
+
+@st.composite
+def cli_meta_cases(draw):
+    buff = draw(_buff)
+    text = draw_text(draw, buff, allow_cr=False, max_lines=5)
+    m = draw_meta_matcher(draw, text)
+    buff = buff_near_text(draw, buff, [text])
+    return {'buff': buff, 'text': text, 'm': m}
 
 
 def counter_command(counter_file, text_file) -> str:
